@@ -82,6 +82,11 @@ def peer_rules():
     out = []
     for rule in flask_app.url_map.iter_rules():
         if rule.rule.startswith('/v1/peer/'):
-            for m in sorted(rule.methods - {'HEAD', 'OPTIONS'}):
+            methods = set(rule.methods) - {'HEAD'}
+            if getattr(rule, 'provide_automatic_options', True) is not False:
+                # OPTIONS answered by Flask itself (the view is not called); when a rule lists OPTIONS explicitly the
+                # view runs for it - and flask_httpauth skips authentication for OPTIONS - so it is a method to check
+                methods.discard('OPTIONS')
+            for m in sorted(methods):
                 out.append((rule.endpoint, rule.rule, m, sorted(rule.arguments)))
     return sorted(out)
